@@ -234,6 +234,72 @@ fn gen_tail(ch: &mut Chooser, ty: Ty, family: &'static str, mappings: &[usize]) 
     Case { ty, pos, lang, prefixed, mapping, family }
 }
 
+
+// ---------- family: two type expressions of the same shape in one program ----------
+
+fn build_chain(ctors: &[usize], leaf_name: &str) -> Ty {
+    let mut t = leaf(leaf_name);
+    for c in ctors.iter().rev() {
+        t = match c {
+            1 => Ty::Vec(Box::new(t)),
+            2 => Ty::Array(Box::new(t), 3),
+            3 => Ty::Slice(Box::new(t)),
+            4 => Ty::Option(Box::new(t)),
+            5 => Ty::Ptr("Box", Box::new(t)),
+            6 => Ty::Map(Box::new(Ty::Prim("String")), Box::new(t)),
+            _ => Ty::Generic("G1".into(), vec![t]),
+        };
+    }
+    t
+}
+
+/// `struct Outer { a: C[l1], b: C[l2], c: C[l1] }` for one constructor chain C and two different leaves: a backend
+/// that caches or keys translations by an abbreviated spelling gives `b` (or the second `a`) the wrong type.
+fn check_same_shape(ctors: &[usize], l1: &'static str, l2: &'static str, lang: Lang, choices: &[u32], acc: &mut Acc) {
+    let (t1, t2) = (build_chain(ctors, l1), build_chain(ctors, l2));
+    let generic = l1 == "T" || l2 == "T";
+    let mut outer = Item::strukt("Outer", vec![Field::new("a", t1.clone()), Field::new("b", t2.clone()), Field::new("c", t1.clone())]);
+    if generic {
+        outer.generics = vec!["T".into()];
+    }
+    let mut g1 = Item::strukt("G1", vec![Field::new("g", Ty::Param("A".into()))]);
+    g1.generics = vec!["A".into()];
+    let file = File::single(vec![Item::strukt("User", vec![Field::new("u", Ty::Prim("u32"))]), g1, outer]);
+    let cfg = Cfg::plain();
+    let generics: Vec<String> = if generic { vec!["T".into()] } else { vec![] };
+    let ctx = Ctx { lang, cfg: &cfg, generics: &generics, renames: &[] };
+    acc.runs += 1;
+    let ok = match refmodel::run_single(&file, lang, &cfg) {
+        Ok(ok) => ok,
+        Err((fail, source)) => {
+            match &fail {
+                RunFail::Render(e) => acc.machinery(format!("renderer produced invalid Rust: {e}\n{source}")),
+                RunFail::Pipeline(crate::pipeline::Outcome::GenError(_)) => acc.out_of_scope += 1,
+                _ => acc.vios.add(Violation { sig: format!("C05|{}|same-shape|no-output:{}", lang.name(), fail.class()), detail: json!({"choices": choices, "lang": lang.name(), "source": source, "failure": fail.describe()}) }),
+            }
+            return;
+        }
+    };
+    acc.inputs.insert(report::fnv64(&ok.source));
+    acc.nontrivial.insert(report::fnv64(&format!("{}|{}", ok.source, lang.name())));
+    let Some(st) = ok.out.structs().find(|s| s.name == "Outer") else {
+        acc.vios.add(Violation { sig: format!("C05|{}|same-shape|type-not-found", lang.name()), detail: json!({"choices": choices, "source": ok.source, "output": ok.text}) });
+        return;
+    };
+    for (wire, ty) in [("a", &t1), ("b", &t2), ("c", &t1)] {
+        acc.judgements += 1;
+        let exp = typemodel::expected(&ctx, ty);
+        let Some(f) = st.fields.iter().find(|f| f.wire == wire) else { continue };
+        if let Err(e) = typemodel::matches(lang, &exp, &f.ty, &ok.out, lang != Lang::TypeScript) {
+            acc.vios.add(Violation {
+                sig: format!("C05|{}|same-shape|field={wire}|{}", lang.name(), e.split(':').next().unwrap_or("")),
+                detail: json!({"choices": choices, "lang": lang.name(), "field": wire, "rust_type": ty.render(), "sibling_types": [t1.render(), t2.render()], "expected": format!("{exp:?}"), "observed": f.ty.show(), "mismatch": e, "source": ok.source, "output": ok.text}),
+            });
+        }
+    }
+    acc.outcomes.insert(report::fnv64(&format!("{}|{}", lang.name(), st.fields.len())));
+}
+
 fn controls(rep: &mut Report) {
     use typemodel::Exp;
     let of = OutFile::default();
@@ -363,6 +429,35 @@ pub fn run(args: &[String]) -> i32 {
             u64::MAX,
         );
         merge(&mut rep, "const_types", accs, &stats, json!({"leaves": 14, "languages": ["typescript", "go", "python"]}));
+    }
+    // 4. two expressions of the same shape in one program (state carried from one translation to the next)
+    {
+        // quick: the four constructors that carry state in some backend and six leaves; thorough: everything
+        let maxlen = 3;
+        let ctor_menu: &[usize] = if thorough { &[1, 2, 3, 4, 5, 6, 7] } else { &[1, 4, 6, 7] };
+        let leaf_menu: Vec<&'static str> = if thorough { LEAVES.to_vec() } else { vec!["String", "u32", "bool", "i8", "User", "T"] };
+        let (accs, stats) = explore(
+            |ch| {
+                ch.choose("chain_length", maxlen + 1);
+            },
+            |ch, acc: &mut Acc| {
+                let len = ch.choose("chain_length", maxlen + 1);
+                let ctors: Vec<usize> = (0..len).map(|_| ctor_menu[ch.choose("ctor", ctor_menu.len())]).collect();
+                let l1 = leaf_menu[ch.choose("leaf_1", leaf_menu.len())];
+                let l2 = leaf_menu[ch.choose("leaf_2", leaf_menu.len())];
+                let lang = *ch.pick("lang", &ALL_LANGS);
+                if l1 == l2 || l1 == "()" || l2 == "()" {
+                    acc.out_of_scope += 1;
+                    return;
+                }
+                check_same_shape(&ctors, l1, l2, lang, &ch.choices(), acc);
+            },
+            Mode::Product,
+            3,
+            report::threads(),
+            u64::MAX,
+        );
+        merge(&mut rep, "same_shape_two_leaves", accs, &stats, json!({"constructor_chain_length": format!("0..={maxlen}"), "constructors": if thorough { json!(["Vec", "[_;3]", "&[_]", "Option", "Box", "HashMap<String,_>", "G1<_>"]) } else { json!(["Vec", "Option", "HashMap<String,_>", "G1<_>"]) }, "leaves": leaf_menu, "leaf_pairs": "every ordered pair of different leaves", "fields": "a: C[l1], b: C[l2], c: C[l1]", "languages": 6}));
     }
     let amb_k = if rep.thorough() { 3 } else { 2 };
     super::common::ambient_family(&mut rep, "ambient_variations", amb_k + 1, |ch| { gen_chain(ch, 2); }, |ch, acc| {
